@@ -830,7 +830,9 @@ class IrGenerator:
             #
 
             if inp.returns():
-                assert inp.returns_always()
+                # all branches return, only the missing
+                # default branch leaves a path that falls through
+                assert inp.returns_always() or inp._default is None
 
             if inp._default is not None:
                 rewritten = inp._default
